@@ -55,8 +55,8 @@ func (rt *runtime) calculateBinaryExpression(operator token.Token, left Value, r
 	switch operator {
 	// Additive
 	case token.PLUS:
-		leftValue = toPrimitiveValue(leftValue)
 		rightValue := right.resolve()
+		leftValue = toPrimitiveValue(leftValue)
 		rightValue = toPrimitiveValue(rightValue)
 
 		if leftValue.IsString() || rightValue.IsString() {
